@@ -699,6 +699,13 @@ func ruleFatalCloses(r *Run, p *Prog, rule string) {
 				body := loopBlocks(hdr)
 				okAllChildren = true
 				why = ""
+				// a counting loop visits every index: forwards from 0 (range: from -1 with the test on
+				// i+1) while below len, or backwards from len-1 while >= 0; a recognisable counter
+				// that starts one late or stops one early skips a child
+				if miss := counterSkipsAnIndex(hdr); miss != "" {
+					okAllChildren = false
+					why = "the loop over the children " + miss
+				}
 				for b := range body {
 					if b == hdr {
 						continue
@@ -1127,6 +1134,22 @@ func ruleReaderAdvances(r *Run, p *Prog, rule string) {
 				if one, ok := constInt(bo.Y); ok && one == 1 {
 					if fvr, _ := loadedField(bo.X); fvr != nil && fname(fvr) == "readIndex" {
 						inc = true
+						// the value incremented is the read index as it is now: no other store to
+						// it (the fast-forward) lies between that load and the final store — a copy
+						// taken at the top of the function is stale after a fast-forward
+						ld, _ := bo.X.(ssa.Instruction)
+						seenLoad := false
+						for _, in := range pa.Instrs() {
+							if in == ld {
+								seenLoad = true
+								continue
+							}
+							if st, ok := in.(*ssa.Store); ok && seenLoad && st.Val != last {
+								if fa, ok := st.Addr.(*ssa.FieldAddr); ok && fname(fieldVar(fa)) == "readIndex" {
+									inc = false
+								}
+							}
+						}
 					}
 				}
 			}
@@ -1208,4 +1231,94 @@ func ruleSetRetryStateless(r *Run, p *Prog, rule string) {
 			return
 		}
 	}
+}
+
+// counterSkipsAnIndex: hdr is the header of a loop `if <counter test> …` over the indices of a
+// slice. Returns a description when the counter provably leaves out the first or the last index,
+// "" when it covers all of them or the shape is not a plain counter (no verdict).
+func counterSkipsAnIndex(hdr *ssa.BasicBlock) string {
+	ifi, ok := hdr.Instrs[len(hdr.Instrs)-1].(*ssa.If)
+	if !ok {
+		return ""
+	}
+	bo, ok := ifi.Cond.(*ssa.BinOp)
+	if !ok {
+		return ""
+	}
+	body := loopBlocks(hdr)
+	isLen := func(v ssa.Value) bool {
+		c, ok := v.(*ssa.Call)
+		return ok && builtinName(&c.Call) == "len"
+	}
+	lenMinus := func(v ssa.Value) (int64, bool) { // len(x) - k
+		if isLen(v) {
+			return 0, true
+		}
+		if b, ok := v.(*ssa.BinOp); ok && b.Op == token.SUB && isLen(b.X) {
+			if k, ok := constInt(b.Y); ok {
+				return k, true
+			}
+		}
+		return 0, false
+	}
+	// the counter phi and its step
+	ph, _ := bo.X.(*ssa.Phi)
+	rangeForm := false
+	if inc, ok := bo.X.(*ssa.BinOp); ok && inc.Op == token.ADD {
+		if one, ok := constInt(inc.Y); ok && one == 1 {
+			ph, _ = inc.X.(*ssa.Phi)
+			rangeForm = true
+		}
+	}
+	if ph == nil || ph.Block() != hdr {
+		return ""
+	}
+	var start ssa.Value
+	step := int64(0)
+	for k, e := range ph.Edges {
+		if body[hdr.Preds[k]] {
+			if b, ok := e.(*ssa.BinOp); ok && (b.Op == token.ADD || b.Op == token.SUB) && (b.X == ssa.Value(ph)) {
+				if n, ok := constInt(b.Y); ok {
+					step = n
+					if b.Op == token.SUB {
+						step = -n
+					}
+				}
+			}
+		} else {
+			start = e
+		}
+	}
+	if start == nil || (step != 1 && step != -1) || !body[hdr.Succs[0]] {
+		return ""
+	}
+	if step == 1 {
+		s0, ok := constInt(start)
+		if !ok {
+			return ""
+		}
+		first := s0
+		if rangeForm {
+			first = s0 + 1
+		}
+		if first > 0 {
+			return fmt.Sprintf("starts at index %d: the first child is never reached", first)
+		}
+		if k, ok := lenMinus(bo.Y); ok {
+			if (bo.Op == token.LSS && k > 0) || (bo.Op == token.LEQ && k > 1) {
+				return "stops before the last index: the last child is never reached"
+			}
+		}
+		return ""
+	}
+	// counting down
+	if k, ok := lenMinus(start); ok && k > 1 {
+		return "starts below the last index: the last child is never reached"
+	}
+	if n, ok := constInt(bo.Y); ok {
+		if (bo.Op == token.GTR && n >= 0) || (bo.Op == token.GEQ && n >= 1) {
+			return "counts down only while the index is above 0: the first child is never reached"
+		}
+	}
+	return ""
 }
